@@ -136,6 +136,11 @@ func runEP(c epCase) (fail string, stats map[string]bool) {
 			sr = w.Get(tc.Sid)
 		}
 	}
+	if sr == nil {
+		// closed by one of the early packets before it was ever announced to the application
+		stats["session-closed"] = true
+		stats["session-closed-before-it-was-announced"] = true
+	}
 	if sr != nil {
 		if len(sr.Closes) > 1 {
 			return fmt.Sprintf("%d close events", len(sr.Closes)), stats
